@@ -2,7 +2,7 @@ SPECIFICATION Spec
 CONSTANTS W = 3
           WS = 2
           Deep = {"int8", "string", "N1", "RPtrOE"}
-          OptSet = {"default", "useall", "export", "exporttop", "useall_export", "tng", "tng_export", "tng_exporttop"}
+          OptSet = {"default", "useall", "export", "exporttop", "useall_export", "tng", "tng_export", "tng_exporttop", "throw", "custom"}
           Reps = 100
           RepW = 0
           Which = "all"
